@@ -661,6 +661,71 @@ def adopted_objects_get_settings(ctx: Ctx, rep: Report, rid: str = "R16.22") -> 
                 rep.violation(q, f"{snippet(at[q].test, 50)}: sets {sorted(mine)}", f"an entry adopted by this builder does not get {miss} of its container (the sibling builder {oq} sets it): it keeps the setting it was made with, and the next re-render, regroup or platform change of the ACL reads the entry with a setting that is not the ACL's", where(ctx.func(q), at[q]), inp="Acl('ip access-list extended A', items=[Ace('permit host 10.0.0.1', type='standard')]); acl.group() / acl.platform = 'nxos'")
 
 
+def block_identity_key_is_unique(ctx: Ctx, rep: Report, rid: str = "R16.25") -> None:
+    """The identity (uuid, note, number) that `Acl.group` carries over is found again by something only ONE block has (its
+    first entry): block names are not unique - every block made by `AceGroup(text)` and the block of the entries in front
+    of the first heading are all named "" - so a table keyed by the name gives the note and number of one unnamed block to
+    another one."""
+    rep.rule(rid)
+    f = ctx.func("Acl.group")
+    env = {}
+    for x in own_nodes(f.node):
+        if isinstance(x, (ast.Assign, ast.AnnAssign)) and x.value is not None:
+            t = x.targets[0] if isinstance(x, ast.Assign) else x.target
+            if isinstance(t, ast.Name):
+                env.setdefault(t.id, x.value)
+    n = 0
+    for x in own_nodes(f.node):
+        key = None
+        if isinstance(x, ast.Call) and isinstance(x.func, ast.Attribute) and x.func.attr == "setdefault" and len(x.args) == 2 and any(isinstance(z, ast.Attribute) and z.attr == "uuid" for z in ast.walk(x.args[1])):
+            key = x.args[0]
+        elif isinstance(x, ast.Assign) and isinstance(x.targets[0], ast.Subscript) and any(isinstance(z, ast.Attribute) and z.attr == "uuid" for z in ast.walk(x.value)):
+            key = x.targets[0].slice
+        if key is None:
+            continue
+        n += 1
+        rep.instance()
+        k = env.get(key.id, key) if isinstance(key, ast.Name) else key
+        by_name = any(isinstance(z, ast.Attribute) and z.attr.lstrip("_") == "name" for z in ast.walk(k)) or any(isinstance(z, ast.Call) and isinstance(z.func, ast.Attribute) and "remark" in z.func.attr for z in ast.walk(k))
+        if by_name:
+            rep.violation("Acl.group", snippet(x, 60), "the identity of an existing block is filed under the block's NAME, and unnamed blocks share the name '': the block of the entries in front of the first heading receives uuid, note and number of an `AceGroup(text)` block (and that block gets none)", where(f, x), inp="acl = Acl(two plain entries); acl.append(AceGroup('remark ===== web =====\\npermit tcp any any eq 80')); acl.resequence(); acl.items[-1].note = 'web'; acl.group('===== ')")
+        else:
+            rep.ok(f"Acl.group: {snippet(x, 50)}", f"identity filed under `{snippet(k, 40)}` (not a name)", where=where(f, x))
+    if n == 0:
+        rep.note(f"{rid} no identity table in Acl.group - not judged (R16.18 decides whether identity is kept at all)")
+
+
+def blocks_get_acl_settings(ctx: Ctx, rep: Report, rid: str = "R16.24") -> None:
+    """The blocks `Acl.group` builds belong to the ACL like the entries it adopts: every setting the items builder writes
+    onto an adopted entry (platform, version, type) is given to the AceGroup constructor as well.  A block built without
+    one of them takes the default and stamps IT on its entries (AceGroup.items): after grouping, the entries of an
+    `ios 15.2` ACL have version 0 and render `eq msrpc`, a name that version does not have."""
+    rep.rule(rid)
+    f = ctx.func("Acl.group")
+    ag = ctx.cls("AceGroup")
+    ctors = [x for x in own_nodes(f.node) if isinstance(x, ast.Call) and isinstance(x.func, ast.Name) and ctx.prog.resolve_name(f.module, x.func.id) is ag]
+    st = ctx.prog.find_func("Acl.items.setter")
+    stamped: Set[str] = set()
+    if st is not None:
+        for lp in [x for x in own_nodes(st.node) if isinstance(x, ast.For) and isinstance(x.target, ast.Name)]:
+            for y in ast.walk(lp):
+                if isinstance(y, ast.Assign):
+                    for t in y.targets:
+                        if isinstance(t, ast.Attribute) and src(t.value) == lp.target.id and isinstance(y.value, ast.Attribute) and src(y.value.value) == "self":
+                            stamped.add(t.attr.lstrip("_"))
+    rep.instance()
+    if not ctors or not stamped:
+        rep.note(f"{rid} block construction or the stamping of adopted entries not recognised - not judged")
+        return
+    for c in ctors:
+        kws = {k.arg for k in c.keywords if k.arg}
+        miss = sorted(stamped - kws)
+        if miss and not any(k.arg is None and "self" in src(k.value) for k in c.keywords):
+            rep.violation("Acl.group", snippet(c, 60), f"the block is built without the ACL's {miss}, which the ACL writes onto every entry it adopts: the block takes the default and stamps it on its entries - grouped entries of an ACL with version 15.x have version 0 and are re-rendered from the wrong name table (`eq msrpc` on ios 15.2)", where(f, c), inp="acl = Acl(text_with_eq_135, platform='ios', version='15.2', group_by='=== '); a = acl.items[0].items[1]; a.port_nr = True; a.port_nr = False; a.line")
+        else:
+            rep.ok(f"Acl.group: {snippet(c, 40)}", f"the block receives {sorted(stamped)} of the ACL", where=where(f, c))
+
+
 def blocks_keep_number(ctx: Ctx, rep: Report, rid: str = "R16.23") -> None:
     """A block that `Acl.group` rebuilds keeps its own sequence number, as it keeps identifier and note (R16.18): the number
     is exported (`data()["sequence"]`) and decides `sort()`; a copy, an import of the exported data and every
@@ -910,6 +975,8 @@ def run(ctx: Ctx, rep: Report, tier: str) -> None:
     objects_adopted_once(ctx, rep)
     adopted_objects_get_settings(ctx, rep)
     blocks_keep_number(ctx, rep)
+    blocks_get_acl_settings(ctx, rep)
+    block_identity_key_is_unique(ctx, rep)
     dicts_rebuilt_whole(ctx, rep)
     blocks_keep_identity(ctx, rep)
     exporter_reads_own_settings(ctx, rep)
